@@ -313,6 +313,13 @@ func damagedInputs(e *env) []func() {
 		{"nonce-truncated", true, func(f []byte, he int) []byte { return f[:he+7] }},
 		{"empty-input", true, func(f []byte, he int) []byte { return nil }},
 		{"garbage", true, func(f []byte, he int) []byte { return []byte("this is not an age file\n") }},
+		{"payload-cut-right-after-nonce", false, func(f []byte, he int) []byte { return f[:he+16] }},
+		{"payload-cut-mid-first-chunk", false, func(f []byte, he int) []byte {
+			if len(f) > he+16+20 {
+				return f[:he+16+9]
+			}
+			return f[:he+16+3]
+		}},
 		{"payload-flip-chunk0", false, func(f []byte, he int) []byte { return flip(he+16+5)(f, he) }},
 		{"payload-flip-chunk1", false, func(f []byte, he int) []byte { return flip(he+16+refage.EncChunkSize+5)(f, he) }},
 		{"payload-flip-last-byte", false, flip(-1)},
